@@ -680,29 +680,50 @@ def rule_extensions(ck):
                 if kind != "exc":
                     stack.append((sid, created))
         ck.ob(R, ps, lp.ast, ok, "client: an extension of the response that is not the offered permessage-deflate ends in an error (never silently accepted)")
-    # parameter whitelist
+    # parameter whitelist: decided by abstract interpretation of _create_compressors for concrete parameter names
+    from ..x_absint import Evaluator, Obj, UNK
+
     crt = ck.func(W, P13 + "._create_compressors")
-    ap = [p for p in crt.params() if p != "self"][1]
-    allowed = None
-    for x in q.walk_body(crt.node):
-        if isinstance(x, ast.Assign) and isinstance(x.value, (ast.Set, ast.Tuple, ast.List)) and all(isinstance(e, ast.Constant) for e in x.value.elts):
-            allowed = ({e.value for e in x.value.elts}, q.dotted(x.targets[0]))
-    rfc = {"server_no_context_takeover", "client_no_context_takeover", "server_max_window_bits", "client_max_window_bits"}
-    ck.ob(R, crt, crt.node, allowed is not None and allowed[0] <= rfc, "only RFC 7692 parameters are accepted (allowed %s)" % (sorted(allowed[0]) if allowed else None), construct="allowed params %s" % (sorted(allowed[0]) if allowed else None))
-    ccfg = crt.cfg
-    builds = ccfg.find(lambda x: q.is_call(x, "_PerMessageDeflateCompressor", "_PerMessageDeflateDecompressor"))
-    ck.floor(R, len(builds), 2, "compressor constructions")
-    rej = [t for t in ccfg.stmt_nodes(lambda n: n.kind == "test") if isinstance(t.ast, ast.Compare) and len(t.ast.ops) == 1 and isinstance(t.ast.ops[0], (ast.NotIn, ast.In)) and allowed and q.dotted(t.ast.comparators[0]) == allowed[1]]
-    okw = False
-    for t in rej:
-        bad_kind = "true" if isinstance(t.ast.ops[0], ast.NotIn) else "false"
-        succ = [s for s, k in ccfg.successors(t) if k == bad_kind]
-        lp = [a for a in q.ancestors(q.parent_map(crt.node), t.ast) if isinstance(a, ast.For)]
-        okw = bool(succ) and all(s.kind == "stmt" and isinstance(s.ast, ast.Raise) for s in succ) and bool(lp) and q.dotted(lp[0].iter) == ap
-    ck.ob(R, crt, crt.node, okw, "every agreed parameter is checked against the allowed set and an unknown one raises", construct="whitelist enforced: %s" % okw)
-    for node, c in builds:
-        fors = [n for n in ccfg.nodes if n.kind == "for" and n.id in ccfg.reachable()]
-        ck.ob(R, crt, c, bool(fors) and all(ccfg.dominates(f, node) for f in fors), "the parameter check runs before any compressor is built")
+    cps = [p for p in crt.params() if p != "self"]
+    if len(cps) < 2:
+        raise AnalysisError("_create_compressors: expected (side, agreed_parameters, ...)")
+    rfc = ("server_no_context_takeover", "client_no_context_takeover", "server_max_window_bits", "client_max_window_bits")
+    builders = ("_PerMessageDeflateCompressor", "_PerMessageDeflateDecompressor")
+    ck.floor(R, len(crt.cfg.find(lambda x: q.is_call(x, *builders))), 2, "compressor constructions")
+
+    def outcome(names):
+        env = {"self": Obj("self", params=Obj("params"), _compression_options=Obj("opts")), cps[0]: "server", cps[1]: tuple(names)}
+        for extra in cps[2:]:
+            env[extra] = None
+        outs = Evaluator(max_paths=400).run(crt.node, env)
+        kinds = set()
+        for o in outs:
+            built = any((e_[0] or "").split(".")[-1] in builders for e_ in o.state.events)
+            if o.kind == "raise":
+                kinds.add(("raise", o.value, built))
+            else:
+                kinds.add(("ok", None, built))
+        return kinds
+
+    bad_names = ("bogus", "server_max_window_bit", "permessage-deflate", "", "SERVER_NO_CONTEXT_TAKEOVER")
+    rejected_wrong = []
+    for nm in rfc:
+        ks = outcome((nm,))
+        if not ks or len({k[0] for k in ks}) != 1:
+            raise AnalysisError("_create_compressors: the outcome for the parameter %r is not determined by the abstract interpretation (%s)" % (nm, sorted(map(repr, ks))))
+        if {k[0] for k in ks} != {"ok"}:
+            rejected_wrong.append(nm)
+    ck.ob(R, crt, crt.node, not rejected_wrong, "each of the four RFC 7692 parameters is accepted%s" % ((" - rejected: %s" % rejected_wrong) if rejected_wrong else ""), construct="RFC parameters accepted: %s" % (not rejected_wrong))
+    leaked = []
+    for nm in bad_names:
+        for names in ((nm,), (rfc[0], nm)):
+            ks = outcome(names)
+            if not ks or len({k[0] for k in ks}) != 1:
+                raise AnalysisError("_create_compressors: the outcome for the parameter names %r is not determined by the abstract interpretation (%s)" % (names, sorted(map(repr, ks))))
+            if not all(k[0] == "raise" and k[1] == "ValueError" and not k[2] for k in ks):
+                leaked.append(names)
+    ck.ob(R, crt, crt.node, not leaked, "a parameter name outside RFC 7692 (tried %s, alone and after a valid one) raises ValueError before any compressor is built%s" % (list(bad_names), (" - accepted: %s" % leaked[:3]) if leaked else ""),
+          construct="unknown parameters rejected: %s" % (not leaked))
 
 
 def rule_client_validation(ck):
@@ -712,7 +733,10 @@ def rule_client_validation(ck):
     for a in q.walk_body(ps.node):
         if isinstance(a, ast.Assert) and hparam in q.names_in(a.test):
             n += 1
-            ck.ob("C17.no-assert-validation", ps, a, False, "response headers are validated by a real test that raises, not by `assert` (stripped under -O, AssertionError otherwise)")
+            hn = sorted({x.slice.value.lower() for x in ast.walk(a.test) if isinstance(x, ast.Subscript) and isinstance(x.slice, ast.Constant) and isinstance(x.slice.value, str)}
+                        | {x.args[0].value.lower() for x in ast.walk(a.test) if isinstance(x, ast.Call) and isinstance(x.func, ast.Attribute) and x.func.attr == "get" and x.args and isinstance(x.args[0], ast.Constant) and isinstance(x.args[0].value, str)})
+            ck.ob("C17.no-assert-validation", ps, a, False, "response headers are validated by a real test that raises, not by `assert` (stripped under -O, AssertionError otherwise)",
+                  construct="assert on response header %s" % ("/".join(hn) if hn else q.normalize_construct(a, q.local_names(ps.node))))
     # positive form: the three checks exist as tests whose failing edge raises
     want = {"upgrade": "websocket", "connection": "upgrade", "sec-websocket-accept": None}
     tests = ps.cfg.stmt_nodes(lambda t: t.kind == "test" and isinstance(t.ast, ast.Compare))
@@ -747,7 +771,8 @@ def rule_client_validation(ck):
                         checked = True
         if not from_hdr and not src_names:
             raise AnalysisError("_process_server_headers: selected_subprotocol is stored from an unrecognised source")
-        ck.ob(R, ps, st, checked, "the subprotocol named by the server is accepted only if it is one of those the client offered (membership test before it is exposed)")
+        ck.ob(R, ps, st, checked, "the subprotocol named by the server is accepted only if it is one of those the client offered (membership test before it is exposed)",
+              construct="selected_subprotocol taken from the response without a check against the offer")
     # server: header only when the application's choice is among the offered ones
     ac = ck.func(W, P13 + "._accept_connection")
     hp = [p for p in ac.params() if p != "self"][0]
